@@ -24,8 +24,8 @@ type opDef struct {
 var ops = []opDef{
 	{"+", "OAdd", 1, 3, false, false}, {"-", "OSub", 1, 3, false, false}, {"*", "OMul", 1, 3, false, false},
 	{"/", "ODiv", 1, 3, false, false},
-	{"floor", "(ORound Floor)", 2, 2, true, true}, {"ceiling", "(ORound Ceiling)", 2, 2, true, true},
-	{"truncate", "(ORound Truncate)", 2, 2, true, true}, {"round", "(ORound Round)", 2, 2, true, true},
+	{"floor", "(ORound Floor)", 1, 2, false, true}, {"ceiling", "(ORound Ceiling)", 1, 2, false, true},
+	{"truncate", "(ORound Truncate)", 1, 2, false, true}, {"round", "(ORound Round)", 1, 2, false, true},
 	{"mod", "OMod", 2, 2, true, false}, {"rem", "ORem", 2, 2, true, false},
 	{"abs", "OAbs", 1, 1, false, false}, {"1+", "OInc", 1, 1, false, false}, {"1-", "ODec", 1, 1, false, false},
 	{"gcd", "OGcd", 1, 3, true, false}, {"lcm", "OLcm", 1, 3, true, false},
@@ -87,28 +87,75 @@ func Run(ctx *common.Ctx) {
 			return z
 		}
 	}
-	// operand: literal expression; ratios are written reduced
-	operand := func(intsOnly bool) string {
-		z := randInt()
-		if intsOnly || ctx.Rng.Chance(70) {
-			if z.IsInt64() && ctx.Rng.Chance(8) {
-				// a bignum object holding a small value (results of bignum operations are not demoted)
+	// operands are rationals; an integer-valued one is written as an integer literal, the others as
+	// reduced ratios; with some probability a small integer is wrapped so that it arrives as a bignum object
+	show := func(r *big.Rat) string {
+		if r.IsInt() {
+			z := r.Num()
+			if z.IsInt64() && ctx.Rng.Chance(6) {
 				return fmt.Sprintf("(+ %s 100000000000000000000 -100000000000000000000)", z.String())
 			}
 			return z.String()
+		}
+		return r.Num().String() + "/" + r.Denom().String()
+	}
+	randRat := func(intsOnly bool) *big.Rat {
+		z := randInt()
+		if intsOnly || ctx.Rng.Chance(70) {
+			return new(big.Rat).SetInt(z)
 		}
 		d := randInt()
 		d.Abs(d)
 		if d.Sign() == 0 {
 			d.SetInt64(3)
 		}
-		r := new(big.Rat).SetFrac(z, d)
-		if r.IsInt() {
-			return r.Num().String()
-		}
-		return r.Num().String() + "/" + r.Denom().String()
+		return new(big.Rat).SetFrac(z, d)
 	}
-	ncases := 3000
+	small := func() *big.Rat { return new(big.Rat).SetInt64(int64(ctx.Rng.Intn(13)) - 6) }
+	// an operand related to a: equal, negated, neighbours, multiples, exact quotients, halves, the
+	// integers around a ratio - the places where sign handling, ties and exact division live
+	related := func(a *big.Rat, intsOnly bool) *big.Rat {
+		r := new(big.Rat)
+		k := small()
+		if k.Sign() == 0 {
+			k.SetInt64(2)
+		}
+		switch ctx.Rng.Intn(12) {
+		case 0:
+			r.Set(a)
+		case 1:
+			r.Neg(a)
+		case 2:
+			r.Add(a, big.NewRat(1, 1))
+		case 3:
+			r.Sub(a, big.NewRat(1, 1))
+		case 4:
+			r.Mul(a, k)
+		case 5:
+			r.Quo(a, k)
+		case 6: // a*k + small remainder
+			r.Mul(a, k)
+			r.Add(r, small())
+		case 7: // exactly half way between multiples
+			r.Mul(a, k)
+			r.Add(r, new(big.Rat).Quo(a, big.NewRat(2, 1)))
+		case 8, 9: // the integers around a
+			fl := new(big.Int).Div(a.Num(), a.Denom())
+			if ctx.Rng.Bool() {
+				fl.Add(fl, big.NewInt(1))
+			}
+			r.SetInt(fl)
+		case 10:
+			r.Add(a, big.NewRat(1, 2))
+		default:
+			r.Set(k)
+		}
+		if intsOnly && !r.IsInt() {
+			r.SetInt(new(big.Int).Div(r.Num(), r.Denom()))
+		}
+		return r
+	}
+	ncases := 6000
 	if ctx.Thorough() {
 		ncases = 60000
 	}
@@ -120,8 +167,27 @@ func Run(ctx *common.Ctx) {
 		op := common.Pick(ctx.Rng, ops)
 		n := op.minA + ctx.Rng.Intn(op.maxA-op.minA+1)
 		var exprs []string
+		base := randRat(op.ints)
+		if ctx.Rng.Chance(25) {
+			base = small()
+		}
+		rel := ctx.Rng.Chance(55)
+		if rel {
+			ctx.Hist("operands:related")
+		}
 		for i := 0; i < n; i++ {
-			exprs = append(exprs, operand(op.ints))
+			switch {
+			case i == 0:
+				exprs = append(exprs, show(base))
+			case rel:
+				// derive from the first operand; for divisions the roles are also swapped
+				exprs = append(exprs, show(related(base, op.ints)))
+			default:
+				exprs = append(exprs, show(randRat(op.ints)))
+			}
+		}
+		if rel && n >= 2 && ctx.Rng.Chance(40) {
+			exprs[0], exprs[1] = exprs[1], exprs[0]
 		}
 		var sb strings.Builder
 		for i, e := range exprs {
@@ -194,7 +260,7 @@ func Run(ctx *common.Ctx) {
 		}
 	}
 	ctx.Meta.DistinctNontrivial = len(distinct)
-	ctx.Meta.Rule = "operator from {+ - * / floor ceiling truncate round mod rem abs 1+ 1- gcd lcm < <= > >= =} x 1..3 operands drawn from the boundary grid {0,+-1,+-2,+-3,+-7,+-10,+-2^e,+-(2^e-1),+-(2^e+1) for e in 31,32,62,63,64} (40%), small integers, random 64-bit and random <=200-bit integers, ratios of those (30% for operators that take them), and bignum objects holding small values; distinct = distinct (operator, operand representations) tuples, all non-trivial"
+	ctx.Meta.Rule = "operator from {+ - * / floor ceiling truncate round mod rem abs 1+ 1- gcd lcm < <= > >= =} x 1..3 operands drawn from the boundary grid {0,+-1,+-2,+-3,+-7,+-10,+-2^e,+-(2^e-1),+-(2^e+1) for e in 31,32,62,63,64} (40%), small integers, random 64-bit and random <=200-bit integers, ratios of those (30% for operators that take them), bignum objects holding small values, and in 55% of the cases operands derived from the first one (equal, negated, +-1, small multiples and exact quotients, multiple plus small remainder, exact half-way points, the integers around a ratio, +1/2); distinct = distinct (operator, operand representations) tuples, all non-trivial"
 	header := "From C05 Require Import Model Spec Corr.\nOpen Scope Z_scope.\n"
 	footer := "Definition res := Eval vm_compute in check_all cases.\nPrint res.\nDefinition gcount := Eval vm_compute in guard_count cases.\nPrint gcount.\n"
 	ctx.WriteShards("cases", header, "case", footer, terms, descs, 16)
